@@ -353,6 +353,9 @@ type Input struct {
 	Cols     []int   `json:"cols"`  // upsert_cols: DoUpdates columns (field indexes)
 	Batch    int     `json:"batch"` // create_batch: CreateInBatches size (0 = Create(&slice))
 	Ptr      bool    `json:"ptr"`   // updates_struct: pass a pointer to the payload struct
+	// foc_assign / foi_assign: [Model(&T{}).]Where(rows).[Attrs(map).]Assign(map = Rows[0]).FirstOrCreate/FirstOrInit
+	ChainModel bool `json:"chain_model"`
+	Attrs      *Row `json:"attrs,omitempty"`
 }
 type Cell struct {
 	Row  int64  `json:"row"`
@@ -635,7 +638,7 @@ func run(e *env, in Input) Obs {
 		model.Elem().FieldByName("Locale").SetString(locales[in.ModelLoc])
 	}
 	isUpdate := strings.HasPrefix(in.Kind, "update")
-	if isUpdate || in.Kind == "create_map" {
+	if isUpdate || in.Kind == "create_map" || in.Kind == "create_maps" || in.ChainModel {
 		tx = tx.Model(model.Interface())
 	}
 	if in.HasWhere {
@@ -677,6 +680,27 @@ func run(e *env, in Input) Obs {
 			m["id"] = in.Rows[0].ID
 		}
 		res = tx.Create(m)
+	case "create_maps":
+		ms := []map[string]interface{}{}
+		for _, r := range in.Rows {
+			m := buildMap(t, r)
+			if r.ID != 0 {
+				m["id"] = r.ID
+			}
+			ms = append(ms, m)
+		}
+		res = tx.Create(&ms)
+	case "foc_assign", "foi_assign":
+		if in.Attrs != nil {
+			tx = tx.Attrs(buildMap(t, *in.Attrs))
+		}
+		tx = tx.Assign(buildMap(t, in.Rows[0]))
+		dest := reflect.New(t.Type).Interface()
+		if in.Kind == "foc_assign" {
+			res = tx.FirstOrCreate(dest)
+		} else {
+			res = tx.FirstOrInit(dest)
+		}
 	case "upsert_all":
 		res = tx.Clauses(clause.OnConflict{UpdateAll: true}).Create(buildStruct(t, in.Rows[0]).Interface())
 	case "upsert_nothing":
@@ -846,7 +870,7 @@ func gRow(t TDesc, r Row, asMap bool) string {
 }
 func isMapKind(k string) bool {
 	switch k {
-	case "create_map", "update", "updates_map", "update_column", "update_columns_map":
+	case "create_map", "create_maps", "foc_assign", "foi_assign", "update", "updates_map", "update_column", "update_columns_map":
 		return true
 	}
 	return false
@@ -859,6 +883,12 @@ func gKind(in Input, t TDesc) string {
 		return "OCreateBatch"
 	case "create_map":
 		return "OCreateMap"
+	case "create_maps":
+		return "OCreateMaps"
+	case "foc_assign":
+		return "OFocAssign"
+	case "foi_assign":
+		return "OFoiAssign"
 	case "upsert_all":
 		return "OUpsertAll"
 	case "upsert_nothing":
@@ -914,7 +944,7 @@ func term(in Input, o Obs) string {
 
 // ---- generation ------------------------------------------------------------------------------------
 
-var kinds = []string{"create", "create_batch", "create_map", "upsert_all", "upsert_cols", "upsert_nothing", "save",
+var kinds = []string{"create_maps", "create_maps", "foc_assign", "foc_assign", "foi_assign", "create", "create_batch", "create_map", "upsert_all", "upsert_cols", "upsert_nothing", "save",
 	"update", "updates_struct", "updates_map", "update_column", "update_columns_struct", "update_columns_map"}
 
 func nonKey(t TDesc) []int {
@@ -1054,6 +1084,52 @@ func genInput(r *lib.Rng, edge bool, dyn *Input) Input {
 		if len(in.Rows[0].PV) == 0 {
 			in.Kind = "create"
 			in.Rows = []Row{structRow(r, t, freshID(), 1, 3, edge)}
+		}
+	case "create_maps":
+		// a batch of 2-3 maps naming the same fields, each key independently in column or field spelling
+		first := mapRow(r, t, 0, r.Range(1, 4), edge)
+		if len(first.PV) == 0 {
+			in.Kind = "create"
+			in.Rows = []Row{structRow(r, t, freshID(), 1, 3, edge)}
+			break
+		}
+		explicit := r.Bool()
+		for i, n := 0, r.Range(2, 3); i < n; i++ {
+			row := Row{}
+			if explicit {
+				row.ID = int64(7 + i)
+			}
+			for _, pv := range first.PV {
+				sp := "col"
+				if r.Bool() {
+					sp = "field"
+				}
+				row.PV = append(row.PV, PV{Field: pv.Field, Spell: sp, Zero: r.Chance(1, 4)})
+			}
+			in.Rows = append(in.Rows, row)
+		}
+	case "foc_assign", "foi_assign":
+		// the chain's Where matches 2-3 stored rows; FirstOrCreate/FirstOrInit finds the first of them
+		in.Selects, in.Omits = nil, nil
+		in.Rows = []Row{mapRow(r, t, 0, r.Range(1, 3), edge)}
+		if len(in.Rows[0].PV) == 0 {
+			in.Kind, in.Rows = "create", []Row{structRow(r, t, freshID(), 1, 3, edge)}
+			break
+		}
+		if r.Chance(1, 3) {
+			a := mapRow(r, t, 0, r.Range(1, 2), edge)
+			if len(a.PV) > 0 {
+				in.Attrs = &a
+			}
+		}
+		in.ChainModel = r.Chance(3, 5)
+		in.HasWhere = true
+		ids := append([]int64(nil), stored...)
+		lib.Shuffle(r, ids)
+		in.WhereIDs = ids[:r.Range(2, 3)]
+		sort.Slice(in.WhereIDs, func(i, j int) bool { return in.WhereIDs[i] < in.WhereIDs[j] })
+		if edge && r.Bool() {
+			in.WhereIDs = in.WhereIDs[:1]
 		}
 	case "upsert_all", "upsert_nothing", "upsert_cols":
 		id := int64(1 + r.Intn(4)) // collides
@@ -1334,6 +1410,6 @@ func main() {
 		}
 		add(kind, in)
 	}
-	out.Extra["rule"] = "a case = one write finisher (Create, Create(&slice)/CreateInBatches, Create from map, upsert UpdateAll / DoUpdates(cols) / DoNothing, Save, Update, Updates struct|map, UpdateColumn, UpdateColumns struct|map) on one of six fixed hand-written model types or (half of the cases) on a GENERATED model type built with reflect.StructOf: key + 3-6 string/int fields, each with an independent random choice of '-' / '-:all' / '-:migration', '->' / '->:false' and '<-' / '<-:create' / '<-:update' / '<-:false' / '<-:create,update', default or custom column, optional CreatedAt / UpdatedAt / Touched tracked fields as time.Time, unix seconds or milliseconds with random permissions. The fixed types (together they carry every permission tag <-:create <-:update <-:false <- -> ->:false ->;<-:create - -:migration -:all <-:create,update, custom column names, and auto-time fields as time.Time / unix seconds / milliseconds with and without write permission)) x random Select/Omit lists (0-3 items: '*', 'tbl.*', struct-field spelling, column spelling, 'tbl.col', unknown name) x payload with zero and non-zero entries (struct: every field; map: 1-4 keys in column or field spelling) x model key and/or Where(row IN subset) selecting a strict subset of the 4 stored rows; the seventh fixed type M7 has a COMPOSITE primary key (ID, Locale) whose stored rows share members pairwise, updated through model values carrying the whole key or one member. Observed: the cell-by-cell diff of the table (raw SELECT) with each changed cell classified now / payload value / other, and gorm's parsed permission flags. Domain: map keys name existing columns and (for updates) never the primary key; DoUpdates(cols) runs without Select/Omit; the struct payload is of the model type with a zero key; updates always carry a model key or a Where; explicit DoUpdates lists name only columns with create and update permission. distinct = distinct (type, finisher, select, omit, payload zero pattern and spelling, targeting); non-trivial = some cell changed and (a Select/Omit is present or the type carries permission tags)."
+	out.Extra["rule"] = "a case = one write finisher (Create, Create(&slice)/CreateInBatches, Create from map, upsert UpdateAll / DoUpdates(cols) / DoNothing, Save, Update, Updates struct|map, UpdateColumn, UpdateColumns struct|map, Create(&[]map) with per-key column/field spelling, [Model(&T{}).]Where(2-3 rows).Assign(map).FirstOrCreate|FirstOrInit on a found record) on one of six fixed hand-written model types or (half of the cases) on a GENERATED model type built with reflect.StructOf: key + 3-6 string/int fields, each with an independent random choice of '-' / '-:all' / '-:migration', '->' / '->:false' and '<-' / '<-:create' / '<-:update' / '<-:false' / '<-:create,update', default or custom column, optional CreatedAt / UpdatedAt / Touched tracked fields as time.Time, unix seconds or milliseconds with random permissions. The fixed types (together they carry every permission tag <-:create <-:update <-:false <- -> ->:false ->;<-:create - -:migration -:all <-:create,update, custom column names, and auto-time fields as time.Time / unix seconds / milliseconds with and without write permission)) x random Select/Omit lists (0-3 items: '*', 'tbl.*', struct-field spelling, column spelling, 'tbl.col', unknown name) x payload with zero and non-zero entries (struct: every field; map: 1-4 keys in column or field spelling) x model key and/or Where(row IN subset) selecting a strict subset of the 4 stored rows; the seventh fixed type M7 has a COMPOSITE primary key (ID, Locale) whose stored rows share members pairwise, updated through model values carrying the whole key or one member. Observed: the cell-by-cell diff of the table (raw SELECT) with each changed cell classified now / payload value / other, and gorm's parsed permission flags. Domain: map keys name existing columns and (for updates) never the primary key; DoUpdates(cols) runs without Select/Omit; the struct payload is of the model type with a zero key; updates always carry a model key or a Where; explicit DoUpdates lists name only columns with create and update permission. distinct = distinct (type, finisher, select, omit, payload zero pattern and spelling, targeting); non-trivial = some cell changed and (a Select/Omit is present or the type carries permission tags)."
 	lib.Must(out.Flush())
 }
